@@ -284,10 +284,10 @@ func (g *layoutGen) hws() string {
 	return g.pick("", "", " ", "\t", "  ", " \t")
 }
 
-var identPool = []string{"a", "B", "x_y", "täsk", "_x", "default", "Ünï", "test", "atask", "tas", "ask", "clean", "世界", "a_task_b", "tasky"}
+var identPool = []string{"a", "B", "x_y", "täsk", "_x", "default", "Ünï", "test", "atask", "tas", "ask", "clean", "世界", "a_task_b", "tasky", "SIZE", "ZIP_FILE", "Zz", "aZ", "abcdefghijklmnopqrstuvwxyz", "ABCDEFGHIJKLMNOPQRSTUVWXYZ", "ǅ", "ßẞ", "Ωmega", "дом", "אב", "aªb"}
 var strPool = []string{"", "x", "a b", "**/*.go", "ü/é.txt", "f.txt", " ", "./bin/main", "{{x}}", "a,b", "(x)", "#no", "->", "task", ":=", "}", "{", "a\tb", "*.x", " ", "é"}
 var cmdPool = []string{"echo a", "go test ./...", "echo {{.X}}", "a", "echo \"hi\"", "x -> y", "echo a:=b", "ls (a)", "echo {", "mkdir -p {{.BIN}}/x", "echo $HOME", "echo 'q' | wc -l", "task x", "echo a,b", "echo {{.A}}{{.B}}", "b  c", "echo a\tb", "x \t", "echo {{", "e }} f", "echo é{{.X}}", "echo a ", "b \r c", "c  ", "x}}", "#{{y", "écho x", "xy}}", "}}}", "-v"}
-var commentPool = []string{" hello", "x", " two words", "", " # inner", " task", "\ttabbed", " trailing  ", "  ", " ü", "task x() {}", " a := \"b\"", " cr\r", "\r"}
+var commentPool = []string{" hello", "x", " two words", "", " # inner", " task", "\ttabbed", " trailing  ", "  ", " ü", "task x() {}", " a := \"b\"", " cr\r", "\r", " ---- build ---- #", "##", " fixes issue #", "#", " x #\t"}
 
 func (g *layoutGen) name() string { return identPool[g.rng.Intn(len(identPool))] }
 
@@ -585,6 +585,64 @@ func repoSpokfiles() []string {
 	return out
 }
 
+// sweepRunes: every ASCII code point, Latin-1, and the boundaries (lo-1, lo, hi, hi+1, and lo+stride) of every
+// range of Go's Letter / White_Space / Punct tables, so that the classification of runes by the lexer is compared
+// with the model's tables point by point
+func sweepRunes() []rune {
+	seen := map[rune]bool{}
+	var out []rune
+	add := func(r rune) {
+		if r >= 0 && r <= unicode.MaxRune && !seen[r] && !(r >= 0xD800 && r <= 0xDFFF) {
+			seen[r] = true
+			out = append(out, r)
+		}
+	}
+	for r := rune(0); r < 0x300; r++ {
+		add(r)
+	}
+	for _, t := range []*unicode.RangeTable{unicode.Letter, unicode.White_Space, unicode.Punct} {
+		for _, x := range t.R16 {
+			for _, r := range []rune{rune(x.Lo) - 1, rune(x.Lo), rune(x.Lo) + rune(x.Stride), rune(x.Hi), rune(x.Hi) + 1} {
+				add(r)
+			}
+		}
+		for _, x := range t.R32 {
+			for _, r := range []rune{rune(x.Lo) - 1, rune(x.Lo), rune(x.Lo) + rune(x.Stride), rune(x.Hi), rune(x.Hi) + 1} {
+				add(r)
+			}
+		}
+	}
+	return out
+}
+
+// genRuneSweep: each swept rune in the positions where its class decides what the lexer does
+func genRuneSweep(w *bufio.Writer, withExpect bool) {
+	for _, r := range sweepRunes() {
+		c := string(r)
+		if withExpect {
+			// only structures whose expected tree is known: a letter or '_' inside names
+			if unicode.IsLetter(r) || r == '_' {
+				nm := "n" + c + "m"
+				spec := []sNode{{kind: "AS", name: nm, sval: c + "v"}, {kind: "T", name: nm, deps: []sArg{{false, nm}, {true, c}}, outs: []sArg{{false, c + "o"}}, cmds: []string{"x" + "y"}}}
+				src := nm + " := \"" + c + "v\"\ntask " + nm + "(" + nm + ", \"" + c + "\") -> " + c + "o {\n    xy\n}\n"
+				if r != '"' && r != '\n' {
+					fmt.Fprintf(w, "%s EXPECT %s\n", hx(src), specWords(spec))
+				}
+			}
+			if unicode.IsSpace(r) {
+				// the rune as the only whitespace between tokens
+				spec := []sNode{{kind: "T", name: "t", deps: []sArg{{false, "a"}, {false, "b"}}, cmds: []string{"go"}}}
+				src := "task" + c + "t" + c + "(" + c + "a" + c + "," + c + "b" + c + ")" + c + "{" + c + "go" + "\n}" + c
+				fmt.Fprintf(w, "%s EXPECT %s\n", hx(src), specWords(spec))
+			}
+			continue
+		}
+		for _, tmpl := range []string{"n%sm := \"v\"\n", "task t(a%s) {}\n", "task t() -> %sx {}\n", "task t() {\n %s go\n}\n", "task%st()%s{%sa%s}", "x := %s", "# c%s\ntask t() {}", "A := \"%s\"%s\n"} {
+			fmt.Fprintln(w, hx(strings.ReplaceAll(tmpl, "%s", c)))
+		}
+	}
+}
+
 func syntaxGen(w *bufio.Writer, a map[string]string) {
 	prop := a["prop"]
 	thorough := a["tier"] == "thorough"
@@ -600,8 +658,10 @@ func syntaxGen(w *bufio.Writer, a map[string]string) {
 	}
 	switch prop {
 	case "C06":
+		genRuneSweep(w, true)
 		genSpecLayout(w, rng, 40000*scale, true, false)
 	case "C07", "C11", "C15":
+		genRuneSweep(w, false)
 		genAlpha(w, 3)
 		genSpecLayout(w, rng, 25000*scale, false, false)
 		genSpecLayout(w, rng, 8000*scale, false, true)
@@ -610,6 +670,7 @@ func syntaxGen(w *bufio.Writer, a map[string]string) {
 		}
 		genRandSymbols(w, rng, 20000*scale)
 	default: // C16, C08 and anything else: the malformed stream dominates
+		genRuneSweep(w, false)
 		if thorough {
 			genAlpha(w, 5)
 		} else {
